@@ -104,7 +104,7 @@ func c09Run(s *c09Scn, segName string) verdict {
 	}
 
 	sess, err := newNcSession(ncConfig{adv10: s.Adv10, adv11: s.Adv11, preferred: pref, echo: s.Echo, seg: faultSegs[segName], seed: int64(s.idx),
-		timeout: 3 * time.Second, hello: hello, reply: ncReplyOK, extra: extra})
+		timeout: 8 * time.Second, hello: hello, reply: ncReplyOK, extra: extra}) // no cell's outcome is a timeout: the budget only has to be generous (forty wrapped capabilities, one byte per read, a loaded machine)
 	if err != nil {
 		fail(&v, "C09:new-error", "%v", err)
 
@@ -124,7 +124,7 @@ func c09Run(s *c09Scn, segName string) verdict {
 
 		var e1 error
 
-		fin1, _ := withWatchdog(5*time.Second, func() {
+		fin1, _ := withWatchdog(12*time.Second, func() {
 			if e1 = sess.d.Open(); e1 == nil {
 				e1 = sess.d.Close()
 			}
@@ -154,7 +154,7 @@ func c09Run(s *c09Scn, segName string) verdict {
 
 	var oerr error
 
-	fin, pan := withWatchdog(5*time.Second, func() { oerr = sess.d.Open() })
+	fin, pan := withWatchdog(12*time.Second, func() { oerr = sess.d.Open() })
 	cell := fmt.Sprintf("adv10=%v,adv11=%v,pref=%s", s.Adv10, s.Adv11, s.Pref)
 
 	switch {
